@@ -28,7 +28,7 @@ import os, sys, collections
 sys.path.insert(0, os.path.dirname(os.path.dirname(os.path.abspath(__file__))))
 from vlib import *
 
-NAMES = ["a", "b", "c", "d"]
+NAMES = ["a", "./a", "b", "/b", "//a", "a/", "b/../a", "A", "\u00e9 (NFC)", "e\u0301 (NFD)", "./b", ".//a"]
 REG_NAMES = [["cf", "abs", "kf", "cf3"], ["ct", "odd", "kt", "ct3"], ["cg", "range", "site", "kw"]]
 REG_API = [("add_filter", "remove_filter"), ("add_test", "remove_test"), ("add_function", "remove_global")]
 STEP_W = 19      # integers per step in a trace: result(2) + cur(8) + present(1) + other(8)
@@ -86,8 +86,8 @@ ADHOC = (14, 16, 17, 18, 19, 20, 21)
 
 def describe_step(s):
     op, a, b = s
-    n = NAMES[a % 4]
-    an = NAMES[a] if 0 <= a < 4 else "oneoff"
+    n = NAMES[a % 12]
+    an = NAMES[a] if 0 <= a < 12 else "oneoff"
     if op == 0: return 'add_template("%s", "%s")' % (n, src_text(b))
     if op == 1: return 'add_template_owned(String "%s", String "%s")' % (n, src_text(b))
     if op == 2: return 'add_template_owned(&str "%s", String "%s")' % (n, src_text(b))
@@ -127,7 +127,9 @@ def describe_step(s):
     if op == 20: return 'compile_expression_owned("%s").eval(ctx)' % expr_text(b)
     if op == 21: return 'template_from_named_str("%s", "%s").undeclared_variables(true).len()' % (an, src_text(b))
     if op == 22: return "set_trim_blocks(%s); set_keep_trailing_newline(%s)" % ("true" if a % 4 & 1 else "false", "true" if a % 4 & 2 else "false")
-    if op == 15: return 'get_template("%s").render(context whose Serialize %s)' % (n, "panics" if b else "fails")
+    if op == 15:
+        return 'get_template("%s").render(Serde context that %s)%s' % (n, ["errors after handing out a Value", "panics after handing out a Value",
+               "flattens a map Value (cannot be converted)", "flattens a safe string (cannot be converted)"][b % 4], THREADS[(b // 4) % 4])
     return "nop"
 
 
@@ -167,7 +169,8 @@ REG_SLOTS = [0, 1, 2, 4, 5, 6, 8, 9, 10, 10, 11, 11]
 
 
 def rand_name(rng):
-    return rng.choice([0, 0, 0, 1, 1, 2, 3])
+    # the four observed spellings most of the time, any of the twelve otherwise
+    return rng.choice([0, 0, 0, 1, 1, 2, 3]) if rng.chance(4, 5) else rng.below(12)
 
 
 def rand_step(rng, used):
@@ -194,8 +197,8 @@ def rand_step(rng, used):
     if r < 96 and r >= 82:
         # ad-hoc entry points; the name collides with a stored / loader-served template 5 times out of 6
         op = rng.choice(ADHOC + (14, 14, 17))
-        return (op, rng.below(6) if rng.chance(5, 6) else 9, src())
-    return (15, rand_name(rng), rng.below(2))
+        return (op, rng.below(6) if rng.chance(5, 6) else 99, src())
+    return (15, rand_name(rng), rng.choice([0, 1, 2, 2, 3, 6, 10]))
 
 
 def rand_history(rng, ln):
@@ -225,14 +228,18 @@ def gen(chk):
     # a fresh, or a used thread
     alpha4 = [(1, 0, mp(0)), (1, 1, mp(2)), (26, 0, 1), (26, 0, 2), (26, 0, 5), (27, 0, 0), (8, 0, 8), (8, 0, 16), (8, 0, 0),
               (11, 0, 0), (4, 0, 0)]
+    # fifth family: name spellings (add / remove / get / loader under "a", "./a", "//a", "a/") and Serde contexts that
+    # fail to convert between healthy renders of templates that print the context's embedded values
+    alpha5 = [(0, 1, 80), (1, 0, 96), (4, 1, 0), (4, 0, 0), (1, 4, 112), (4, 4, 0), (6, 1, 0), (7, 1, 0), (8, 1, 0), (8, 4, 0),
+              (0, 2, 13), (0, 3, 12), (15, 2, 2), (15, 2, 0), (15, 2, 6)]
     maxlen = 4 if chk.thorough else 3
     exhaustive = []
-    for al in (alpha, alpha2, alpha3, alpha4):
+    for al in (alpha, alpha2, alpha3, alpha4, alpha5):
         ex = [[]]
         for _ in range(maxlen):
             ex = [h + [s] for h in ex for s in al]
             exhaustive += ex
-    alpha = alpha + alpha2 + alpha3 + alpha4
+    alpha = alpha + alpha2 + alpha3 + alpha4 + alpha5
     return hist, exhaustive, alpha, maxlen
 
 
